@@ -3,6 +3,7 @@
 // per-operation comparison of an etl string with its std::basic_string model (contents + the C04 invariant).
 #pragma once
 
+#include <cwchar>
 #include <memory>
 #include <string>
 #include <string_view>
@@ -15,7 +16,7 @@ using vf::RawOp;
 
 constexpr std::size_t knpos = static_cast<std::size_t>(-1);
 
-// ------------------------------------------------------------------ alphabet: a, b, c, NUL and two code units >= 0x80
+// ------------------------------------------------------------------ alphabet: a, b, c, NUL, two code units >= 0x80 and five extreme code units
 template <typename Char>
 constexpr auto hi_unit() -> Char
 {
@@ -29,10 +30,29 @@ constexpr auto hi_unit() -> Char
         return static_cast<Char>(0x20AC);
     }
 }
+// extreme code units of each character type: the sign / range boundaries where a traits implementation can go wrong
+// (wchar_t is a signed 32-bit type here and std::char_traits<wchar_t> orders it as such)
+template <typename Char>
+constexpr auto extreme_unit(std::uint32_t i) -> Char
+{
+    if constexpr (std::is_same_v<Char, wchar_t>) {
+        constexpr wchar_t t[5] = {static_cast<wchar_t>(-1), WCHAR_MIN, WCHAR_MAX, static_cast<wchar_t>(0x100), static_cast<wchar_t>(0xFF)};
+        return t[i % 5];
+    } else if constexpr (std::is_same_v<Char, char16_t>) {
+        constexpr char16_t t[5] = {0xD800, 0xDFFF, 0xFFFF, 0x00FF, 0x0100};
+        return t[i % 5];
+    } else if constexpr (std::is_same_v<Char, char32_t>) {
+        constexpr char32_t t[5] = {0x10FFFF, 0x80000000U, 0xFFFFFFFFU, 0x0100, 0xFF};
+        return t[i % 5];
+    } else {
+        constexpr unsigned char t[5] = {0xFF, 0x7F, 0x01, 0xC3, 0x81};
+        return static_cast<Char>(t[i % 5]);
+    }
+}
 template <typename Char>
 constexpr auto alpha(std::uint32_t v) -> Char
 {
-    switch (v % 8) {
+    switch (v % 16) {
     case 0: return static_cast<Char>('a');
     case 1: return static_cast<Char>('b');
     case 2: return hi_unit<Char>();
@@ -40,8 +60,24 @@ constexpr auto alpha(std::uint32_t v) -> Char
     case 4: return static_cast<Char>('a');
     case 5: return static_cast<Char>('b');
     case 6: return static_cast<Char>('c');
-    default: return static_cast<Char>(0x80);
+    case 7: return static_cast<Char>(0x80);
+    case 8: return extreme_unit<Char>(0);
+    case 9: return extreme_unit<Char>(1);
+    case 10: return extreme_unit<Char>(2);
+    case 11: return extreme_unit<Char>(3);
+    case 12: return extreme_unit<Char>(4);
+    case 13: return static_cast<Char>('a');
+    case 14: return static_cast<Char>(0);
+    default: return hi_unit<Char>();
     }
+}
+template <typename Char>
+constexpr auto is_extreme(Char c) -> bool
+{
+    for (std::uint32_t i = 0; i < 5; ++i) {
+        if (c == extreme_unit<Char>(i)) { return true; }
+    }
+    return false;
 }
 
 inline auto num(std::size_t v) -> std::string { return v == knpos ? std::string("npos") : std::to_string(v); }
@@ -207,7 +243,11 @@ inline auto sgn(int v) -> int { return v < 0 ? -1 : (v > 0 ? 1 : 0); }
     X(COMPARE_POS_N_STR, "compare(pos,n,str)") X(COMPARE_POS_N_STR_POS_N, "compare(pos,n,str,pos2,n2)") X(COMPARE_POS_N_STR_POS, "compare(pos,n,str,pos2)") X(COMPARE_CSTR, "compare(cstr)")           \
     X(COMPARE_POS_N_CSTR, "compare(pos,n,cstr)") X(COMPARE_POS_N_PTR_N, "compare(pos,n,p,n2)") X(COMPARE_VIEW, "compare(view)") X(COMPARE_POS_N_VIEW, "compare(pos,n,view)")                           \
     X(COMPARE_POS_N_VIEW_POS_N, "compare(pos,n,view,pos2,n2)") X(COMPARE_POS_N_VIEW_POS, "compare(pos,n,view,pos2)") X(PREFIX_SUFFIX, "starts_with/ends_with/contains")                                \
-    X(RELOPS_STR, "relational operators str x str(other capacity)") X(RELOPS_CSTR, "relational operators str x cstr, cstr x str")
+    X(RELOPS_STR, "relational operators str x str(other capacity)") X(RELOPS_CSTR, "relational operators str x cstr, cstr x str")                                                                 \
+    /* added later (codes are only ever appended: stored cases keep their meaning) */                                                                                                                 \
+    X(ALIAS_ASSIGN_PTR_N, "s.assign(s.data()+k,n)") X(ALIAS_ASSIGN_CSTR, "s.assign(s.c_str()+k)") X(ALIAS_OPEQ_CSTR, "s = s.c_str()+k") X(ALIAS_ASSIGN_MISC, "assign/operator= from a range or view of s itself") \
+    X(ALIAS_APPEND, "append/+=/push_back with an argument inside s itself") X(ALIAS_INSERT, "insert with an argument inside s itself") X(ALIAS_REPLACE, "replace with an argument inside s itself")        \
+    X(ALIAS_QUERY, "find*/compare/starts_with... with an argument inside s itself") X(OTHERCAP, "operations with a string of another capacity") X(FREE_ERASE_TYPED, "erase/erase_if(str, value of another type)")
 
 enum Code : std::uint32_t {
 #define X(id, name) id,
@@ -224,5 +264,8 @@ inline char const* const code_names[] = {
 // exclusion tags of the two behaviours the unedited unit tests pin (known-finding protocol, HARNESS_GUIDE)
 constexpr char const* tag_replace = "string.replace.length_changing";
 constexpr char const* tag_rfind   = "string.rfind.default_pos";
+// replace(..) copies the replacement forward in place: wrong when the replacement lies inside the string itself and starts
+// before the replaced range (only needed until the repair design/patches/C04-42 is committed)
+constexpr char const* tag_replace_overlap = "string.replace.self_overlap";
 
 } // namespace c04
